@@ -83,6 +83,31 @@ CLAIMED = {
             '(spearman, rho-a, tau-a, tau-b) proved unchanged under symbolic positive affine maps, sqrt and x^3+x on all 169 ordering '
             'paths; cosine under positive scaling and corr under positive affine maps as identities (plain and whitened).',
             'geodesic_transform outside (networkx rejects object arrays; no model built); 3 conditions for everything that forks on orderings'),
+    'C05': ('DESIGN.md 4/C05',
+            'All eight sets_* generators are executed for every grouping pattern of <=5|6 conditions / RDMs (incl. duplicated groups), every k '
+            'and group size, ordered and every shuffle outcome (choice points) for <=4 groups: disjoint train/test groups, group integrity, '
+            'every group in exactly one test fold, fold sizes within one, returned index lists = object contents, every handed-out RDMs '
+            'object contains exactly the advertised entries as THE source variables, ceiling sets = training rdms at test conditions. Leakage: '
+            'crossval is run with a recording probe fitter returning fresh symbolic parameters; the fitter provably sees only the training '
+            'object, and each fold score is proved equal to an oracle that reads theta and the test set only (non-interference by equality).',
+            'bounded sizes; k_fold over both factors only for 3 structures; non-interference is shown for cosine and a weighted-sum model; '
+            'fold index arithmetic is executed for every (n,k) in the bound, not proved for symbolic n,k'),
+    'C07': ('DESIGN.md 4/C07',
+            'Real pool_rdm / boot_noise_ceiling executed symbolically: pooled RDM proved equal to the mean of unit-rms (cosine), standardised '
+            'and min-shifted (corr) or tie-averaged rank (rho-a, all 169 ordering paths) data RDMs over non-missing entries; both bounds '
+            'proved equal to the mean over left-out groups of sim(pool(rest)|pool(all), left-out data) for singleton and grouped RDMs, so '
+            'the prediction for a group provably contains no variable of that group; common missing entries = entry-deleted RDMs; upper-bound '
+            'optimality for cosine and corr through linking identities + solver-checked Lagrange identity + abstraction.',
+            'optimality chain only for 2 RDMs x 3 conditions; lower<=upper, scaling/affine invariance of the upper bound, cv_noise_ceiling '
+            '(15 entries) and larger optimality instances came back unknown (nested sqrt atoms) and are NOT claimed; every norm the code '
+            'takes a square root of is assumed positive; branches with undecidable feasibility are not explored'),
+    'C13': ('DESIGN.md 4/C13',
+            'Every comparison measure (cosine, corr, whitened with sigma None/vector, Spearman, rho-a, tau-a, tau-b by forking) on RDMs with a '
+            'common NaN mask is proved equal to the reference measure on the entry-deleted vectors (whitened: rows/columns of V deleted before '
+            'inversion); masks at different positions - same or different count, between stacks or within one - must raise ValueError; '
+            'pooled RDMs of both pooling routines (plain and whitened) and the regression fit equal their entry-deleted counterparts; '
+            'RDMs.mean is proved the per-pair NaN-aware mean for no / per-entry / per-RDM weights, NaN only where no RDM has a value.',
+            'masks on 4 conditions (4|41 masks); rescale outside (data-dependent iteration count); positive norms assumed'),
 }
 
 NA = {
